@@ -2,6 +2,7 @@ package main
 
 import (
 	"fmt"
+	"os"
 	"go/constant"
 	"go/token"
 	"go/types"
@@ -1247,6 +1248,9 @@ func (f *Frame) loopDirectCellStores(li *loopInfo) map[string]bool {
 // The state st continues on the no-panic path (its reach is narrowed by the caller).
 func (f *Frame) panicFork(ins ssa.Instruction, pst *State, extra map[string]Value) {
 	u := f.u
+	if os.Getenv("GOVC_DEBUG_PANIC") != "" {
+		fmt.Fprintf(os.Stderr, "panicFork in %s at %s: %d defers, top=%v ghostPanicked=%v\n", f.fn.Name(), u.eng.pos(ins.Pos()), len(f.defers), f.top, f.ghostTy != nil && f.ghostTy["panicked"] != nil)
+	}
 	pv := u.sc.fresh("panicval", SIface)
 	u.assume(pst.reach, mkAnd(mk(SBool, ">", mk(SInt, "if-tag", pv), intConst(0)), mk(SBool, ">=", mk(SInt, "if-val", pv), intConst(0))))
 	if f.top && f.ghostTy != nil {
